@@ -1740,8 +1740,8 @@ static void do_dump_replay(struct uftrace_dump_ops *ops, struct uftrace_opts *op
 
 		last_time = task->timestamp_last;
 
-		if (handle->time_range.stop && handle->time_range.stop < last_time)
-			last_time = handle->time_range.stop;
+		if (handle->time_range.stop && time_range_stop(&handle->time_range) < last_time)
+			last_time = time_range_stop(&handle->time_range);
 
 		while (--task->stack_count >= 0) {
 			struct uftrace_fstack *fstack;
